@@ -54,7 +54,7 @@ def to_xml(node: Node, level: int = 0) -> str:
         if isinstance(content, str):
             # if it hasn't been escaped already, escape it
             if all (x not in content for x in ('&amp;', '&lt;', '&gt;')):
-                content = escape(content)
+                content = escape(content, {"\r": "&#13;"})
                 # Hopefully, this is a temporary hack. Need to figure out a better way...
                 # The problem is that <para> tags are treated idiosyncratically because their rules aren't fully
                 #  supported. They appear within node content, unlike other tags.
